@@ -16,7 +16,7 @@ DELIVERY_TYPES = ("signal_hook::iterator::backend::DeliveryState", "signal_hook:
 
 
 def rule_a(ctx):
-    poison_rules(ctx, "C12.a", lock_filter=lambda l: IDS_LOCK in l, floor=2)
+    poison_rules(ctx, "C12.a", lock_filter=lambda l: IDS_LOCK in l, floor=1)
     from .lockrules import drops_reaching
     ds = [d for d in drops_reaching(ctx.F, "signal_hook_registry::unregister") if d.crate == "signal_hook"]
     panic_in_drop(ctx, "C12.a2", None, drops=ds)
@@ -252,8 +252,36 @@ def _idx_is_param(h, bb, n):
     return True
 
 
+def rule_f(ctx, rid="C12.f"):
+    """re-adding is a no-op also under concurrency: the 'already watched?' check, the registration and the recording of the id form one
+    critical section of the id-table mutex — otherwise two threads adding the same signal both register (two actions, two wake bytes per
+    delivery) and one registration is never removed"""
+    F = ctx.F
+    ctx.rule(rid, "Handle::add_signal holds the id-table mutex from the check through the registration to the recording of the id (one "
+                  "acquisition; the registration call and the table write lie inside its critical section)", floor=2)
+    L = lockinfo(F)
+    for h in F.some("signal_hook::iterator::backend::Handle::add_signal"):
+        ctx.fn(h)
+        acq = [a for a in L.acqs if a.inst.id == h.id and IDS_LOCK in a.lock and a.kind == "direct"]
+        # acquisitions through a workspace helper returning the guard count as well
+        acq_w = [a for a in L.acqs if a.inst.id == h.id and IDS_LOCK in a.lock]
+        n = len(acq_w)
+        ctx.check(n == 1, rid, "one-acquisition", "the id table is locked exactly once in add_signal (%d acquisition(s))" % n, h.span,
+                  [h.term(a.bb)["sp"] for a in acq_w])
+        if n < 1:
+            continue
+        lock = acq_w[0].lock
+        reg = L.regions.get((h.id, lock), set())
+        regs = [(bb, t) for bb, t in h.calls() if t.get("f") is not None and re.search(r"AddSignal>::add_signal", F.inst[t["f"]].name)]
+        writes = [(bb, t) for bb, t in h.calls() if t.get("f") is not None and "IndexMut" in F.inst[t["f"]].name]
+        okk = bool(regs) and all(bb in reg for bb, _ in regs) and bool(writes) and all(bb in reg for bb, _ in writes)
+        ctx.check(okk and n == 1, rid, "register-and-record-under-lock", "registration and recording happen while that lock is held", regs[0][1]["sp"] if regs else h.span,
+                  {"registration_under_lock": [bb in reg for bb, _ in regs], "record_under_lock": [bb in reg for bb, _ in writes]})
+
+
 def run(ctx):
     from .. import fixtures
+    ctx.guarded("C12.f", rule_f)
     ctx.guarded("C12.FX", lambda c: fixtures.run(c, ['escapes']))
     ctx.guarded("C12.a", rule_a)
     ctx.guarded("C12.b", rule_b)
